@@ -17,6 +17,8 @@ SPEC = {'id': 'C07',
  'theorems': [('Snowflake.Props.C07', 'Snowflake.Safelog.C07.find_complete'),
               ('Snowflake.Props.C07', 'Snowflake.Safelog.C07.scrub_clean'),
               ('Snowflake.Props.C07', 'Snowflake.Safelog.C07.scrub_pass_decreases'),
+              ('Snowflake.Props.C07', 'Snowflake.Safelog.C07.scrub_leaves_clean_text'),
+              ('Snowflake.Props.C07', 'Snowflake.Safelog.C07.scrub_idempotent'),
               ('Snowflake.Props.C07', 'Snowflake.Safelog.C07.split_independent'),
               ('Snowflake.Props.C07', "Snowflake.Safelog.C07.split_independent'"),
               ('Snowflake.Props.C07', 'Snowflake.Safelog.C07.scrub_keeps_final_newline'),
